@@ -118,3 +118,72 @@ def private_tempdir(path: pathlib.Path) -> Iterator[None]:
         yield
     finally:
         tempfile.tempdir = saved
+
+
+def synth_snippets(target: str, directory: pathlib.Path, root_class: str = "Something") -> pathlib.Path:
+    """Write the minimal snippets which ``target`` requires for any model."""
+    import aas_core_codegen.naming as naming
+    from aas_core_codegen.common import Identifier
+
+    directory.mkdir(parents=True, exist_ok=True)
+    if target in ("cpp", "csharp"):
+        (directory / "namespace.txt").write_text("dummy", encoding="utf-8")
+    elif target == "golang":
+        (directory / "repo_url.txt").write_text("github.com/dummy-works/dummy", encoding="utf-8")
+    elif target == "java":
+        (directory / "package.txt").write_text("dummy.pkg", encoding="utf-8")
+    elif target == "python":
+        (directory / "qualified_module_name.txt").write_text("dummy", encoding="utf-8")
+    elif target == "typescript":
+        (directory / "package_documentation.txt").write_text("Provide dummy SDK.", encoding="utf-8")
+        (directory / "package_identifier.txt").write_text("@dummy-works/dummy", encoding="utf-8")
+    elif target == "jsonschema":
+        name = naming.json_model_type(Identifier(root_class))
+        (directory / "schema_base.json").write_text(
+            '{\n  "$schema": "https://json-schema.org/draft/2019-09/schema",\n'
+            '  "title": "DummyForTest",\n  "type": "object",\n  "allOf": [\n'
+            '    {\n      "$ref": "#/definitions/' + name + '"\n    }\n  ]\n}\n',
+            encoding="utf-8",
+        )
+    elif target == "xsd":
+        xml_name = naming.xml_class_name(Identifier(root_class))
+        (directory / "root_element.xml").write_text(
+            '<xs:schema\n        xmlns:xs="http://www.w3.org/2001/XMLSchema"\n'
+            '        xmlns="https://dummy.com"\n        elementFormDefault="qualified"\n'
+            '        targetNamespace="https://dummy.com"\n>\n'
+            f'    <xs:element name="{xml_name}" type="{xml_name}_t" />\n</xs:schema>\n',
+            encoding="utf-8",
+        )
+    else:
+        raise ValueError(target)
+    return directory
+
+
+def execute_target(
+    symbol_table: Any,
+    atok: Any,
+    model_path: pathlib.Path,
+    target: str,
+    snippets_dir: pathlib.Path,
+    output_dir: pathlib.Path,
+) -> Tuple[int, str, str]:
+    """Call ``<target>.main.execute`` on an already loaded model (no front end)."""
+    import importlib
+
+    from aas_core_codegen import run, specific_implementations
+    from aas_core_codegen.common import LinenoColumner
+
+    spec_impls, errors = specific_implementations.read_from_directory(snippets_dir)
+    assert errors is None, errors
+    output_dir.mkdir(parents=True, exist_ok=True)
+    context = run.Context(
+        model_path=model_path,
+        symbol_table=symbol_table,
+        spec_impls=spec_impls,
+        lineno_columner=LinenoColumner(atok=atok),
+        output_dir=output_dir,
+    )
+    module = importlib.import_module(f"aas_core_codegen.{target}.main")
+    stdout, stderr = io.StringIO(), io.StringIO()
+    rc = module.execute(context, stdout=stdout, stderr=stderr)
+    return rc, stdout.getvalue(), stderr.getvalue()
